@@ -36,7 +36,10 @@ MANIFEST = dict(
          "loop that hands pairs to the file or the result vectors is bounded by the kept count; in the vendored cover code a two-vertex "
          "helper applied to a triangle's vertices is applied to all three edges; a method that handles a stored node (a position in the node array) hands only the "
          "node's HTM id to the result lists, directly or through the id argument of the methods that pass it on, and searches all four stored children whatever a "
-         "sibling answered (an early exit is accepted - as undecided - only if the answer that triggers it is produced solely under a failed edge-crossing test).",
+         "sibling answered (an early exit is accepted - as undecided - only if the answer that triggers it is produced solely under a failed edge-crossing test); "
+         "the triangle lists searched for input point i are filled by an intersection of the same iteration (a kept cover is reused only under a condition that depends on "
+         "longitude, latitude AND radius of the point), and no loop over the candidate triangles is left early on a condition on the candidate in hand; the edge/circle "
+         "quadratic (eSolve) answers 'no crossing' on the ground of its discriminant only where the discriminant is negative (no positive absolute bound, no additive offset).",
     note="Not decided: none missing / each once for the vendored HTM library (SpatialDomain/SpatialIndex triangle cover), "
          "depth independence, rounding of cos(rad) in the cover for tiny radii. Trusted: clang AST, SWIG naming convention "
          "(proxy method arguments in C++ order), std::sort, LP64.",
